@@ -14,7 +14,9 @@ import tlc
 OPTS = ['gc', 'G', 'A', 'coverage', 'profile', 'buffer', 'warnings', 'D']
 ENDINGS = ['normal', 'failing', 'hookUp', 'hookDown', 'kbint', 'stop', 'postmortem',
            'layerKbint', 'skipThenHookDown', 'kbintThenHookDown', 'redirKbint',
-           'gcWinKbint']
+           'gcWinKbint', 'profDirGone']
+# inner options of a nested run (a test of the outer run calls run_internal)
+INNER_POOL = ['gc', 'G', 'coverage', 'profile', 'buffer', 'warnings']
 HOOKS = ['setUp', 'tearDown', 'testSetUp', 'testTearDown']
 
 # the caller's state of the collector before the run (inputs, by name)
@@ -27,10 +29,27 @@ GC_ARGS = [[500], [500, 8], [500, 8, 7], [0]]
 DEVS = ('CoverageResetsTrace', 'CoverageStopAllThreads', 'ProfileResetsHook', 'PostMortemResetsTrace',
         'TeardownOutsideFinally', 'NoCatchWarnings', 'CatchWarningsOnlyIfSet', 'HooksDownBeforeRestore',
         'TracebackKeepsPrint', 'RestoreOnlyOwnBuffer',
-        'DebugOrAndMask', 'AfterTestClearsDebug', 'AnalysisInterrupted')
+        'DebugOrAndMask', 'AfterTestClearsDebug', 'AnalysisInterrupted',
+        'SharedSaveSlot', 'ProfilerOffAtDump')
 
 
-def make_world(wid, ending, rng):
+def inner_args(inner, rng):
+    """the command line of the nested run (GlobalState!NestPush)"""
+    args = []
+    if 'gc' in inner:
+        args += ['--gc', str(rng.choice([300, 900]))]
+    if 'G' in inner:
+        args += ['-G', rng.choice([U, T])]
+    if 'coverage' in inner:
+        args += ['--coverage', '@NESTDIR@/cov']
+    if 'profile' in inner:
+        args += ['--profile', 'cProfile', '--profile-directory', '@NESTDIR@']
+    if 'buffer' in inner:
+        args += ['--buffer']
+    return args
+
+
+def make_world(wid, ending, rng, nested=None):
     """L1 (runs first): t1 snapshots the globals from inside a test and
     fiddles with the warnings machinery; L2: where the test phase ends (t3
     takes another snapshot if it is reached).  Tests leave cyclic garbage
@@ -45,6 +64,15 @@ def make_world(wid, ending, rng):
     }
     if rng.random() < 0.7:
         tests['t1']['body'].insert(0, {'a': 'cycle'})
+    if nested is not None:
+        # the first test performs a run of its own before anything else (its
+        # snapshot then shows what the inner run left behind)
+        tests['t1']['body'].insert(0, {
+            'a': 'nested', 'args': inner_args(nested, rng), 'fail': rng.random() < 0.5,
+            'warnings': rng.choice(['always', 'error']) if 'warnings' in nested else None})
+    if ending == 'profDirGone':
+        # the profile directory disappears while the tests run
+        tests['t2']['body'].append({'a': 'rmtree', 'path': 'profdir'})
     if ending == 'gcWinKbint':
         # Ctrl-C while stopTest prints the garbage this test left behind
         tests['t2']['body'].append({'a': 'cycle', 'repr': 'kbint'})
@@ -79,9 +107,14 @@ def make_world(wid, ending, rng):
             'tests': tests}
 
 
-def make_job(cid, opts, ending, pre, rng, pre_debug=None, gflags=None, v4=None):
+def make_job(cid, opts, ending, pre, rng, pre_debug=None, gflags=None, v4=None, nested=None):
     args = []
     opts = set(opts)
+    if ending == 'profDirGone':
+        opts.add('profile')
+    if nested is not None:
+        # not nested: a profiler inside a profiled run, --coverage inside --coverage
+        nested = sorted(set(nested) - (opts & {'profile', 'coverage'}))
     if ending == 'gcWinKbint':
         opts.add('A')
         v4 = True
@@ -91,7 +124,7 @@ def make_job(cid, opts, ending, pre, rng, pre_debug=None, gflags=None, v4=None):
         gflags = rng.choice(G_VARIANTS)
     if v4 is None:
         v4 = rng.random() < 0.75
-    job = {'id': cid, 'world': make_world(cid, ending, rng), 'stdout_kind': 'file',
+    job = {'id': cid, 'world': make_world(cid, ending, rng, nested), 'stdout_kind': 'file',
            'chdir': True,
            'pre': {'gc_threshold': rng.choice(PRE_THRESHOLD), 'gc_debug': 0,
                    'gc_debug_flags': list(pre_debug), 'warn_filter': True,
@@ -111,6 +144,9 @@ def make_job(cid, opts, ending, pre, rng, pre_debug=None, gflags=None, v4=None):
         args += ['--coverage', 'covdir']
     if 'profile' in opts:
         args += ['--profile', 'cProfile']
+        if ending == 'profDirGone':
+            args += ['--profile-directory', 'profdir']
+            job['mkdirs'] = ['profdir']
     if 'buffer' in opts:
         args += ['--buffer']
     if 'warnings' in opts:
@@ -129,7 +165,8 @@ def make_job(cid, opts, ending, pre, rng, pre_debug=None, gflags=None, v4=None):
                                   | ({'x'} if ending == 'stop' else set())),
                    'ending': ending, 'pre': pre,
                    'gbits': list(gflags) if 'G' in opts else [],
-                   'v4': bool('A' in opts and v4), 'pre_debug': list(pre_debug)}
+                   'v4': bool('A' in opts and v4), 'pre_debug': list(pre_debug),
+                   'nested': nested}
     return job
 
 
@@ -137,7 +174,11 @@ def record(job, res):
     evs = res.get('events', [])
     mids = [e['g'] for e in evs if e['e'] == 'Snap']
     before = res.get('before') or {}
-    return {'id': job['id'], 'opts': job['meta']['opts'], 'pre': job['meta']['pre'],
+    nb = [e['g'] for e in evs if e['e'] == 'NestBegin']
+    ne = [e['g'] for e in evs if e['e'] == 'NestEnd']
+    return {'hasNest': bool(nb and ne), 'nestBefore': nb[0] if nb and ne else {'_': ''},
+            'nestAfter': ne[0] if nb and ne else {'_': ''},
+            'id': job['id'], 'opts': job['meta']['opts'], 'pre': job['meta']['pre'],
             'ending': job['meta']['ending'], 'raised': res.get('crashed', '') or '',
             'began': any(e['e'] in ('LsetUpBegin', 'T', 'LtestSetUp') for e in evs) and bool(before),
             'before': before or {'_': ''}, 'after': res.get('after') or {'_': ''},
@@ -172,7 +213,10 @@ def run_jobs(chk, jobs, label):
             continue
         chk.traces += 1
         chk.nontrivial.add(json.dumps([rec['opts'], rec['pre'], rec['ending'],
-                                       j['meta'].get('pre_debug'), rec['gbits'], rec['v4']]))
+                                       j['meta'].get('pre_debug'), rec['gbits'], rec['v4'],
+                                       j['meta'].get('nested')]))
+        if rec['hasNest']:
+            chk.extra['runs_with_nested_run'] = chk.extra.get('runs_with_nested_run', 0) + 1
         if rec['win']:
             chk.extra['runs_with_analysis_window_observed'] = \
                 chk.extra.get('runs_with_analysis_window_observed', 0) + 1
@@ -192,6 +236,8 @@ def run_jobs(chk, jobs, label):
                               else 'profile' if 'profile' in rec['opts'] else 'other')
             elif arg == 'gcDebug' and rec['ending'] == 'gcWinKbint':
                 sig += '|interrupt-in-gc-after-test-analysis'
+            if j['meta'].get('nested') is not None:
+                sig += '|nested-run'
             chk.violation(sig, '%s: %s differs after the run (options %s, ending %s, raised %r): %r -> %r'
                           % (clause, arg, rec['opts'], rec['ending'], rec['raised'],
                              rec['before'].get(arg), rec['after'].get(arg)),
@@ -213,7 +259,7 @@ def run_jobs(chk, jobs, label):
 def model_check(chk):
     """design configurations must pass, every deviation must give a
     counterexample; the runs are independent, a few at a time"""
-    cfgs = [('GlobalState_design', True), ('GlobalState_gc', True)] + \
+    cfgs = [('GlobalState_design', True), ('GlobalState_gc', True), ('GlobalState_nest', True)] + \
            [('GlobalState_dev_' + d, False) for d in DEVS]
     with ThreadPoolExecutor(max_workers=4) as ex:
         futs = [ex.submit(tlc.run, 'GlobalState', c, workers=6 if ok else 4,
@@ -299,6 +345,17 @@ def run(chk, tier, seed, replay=None):
             k += 1
         for e in (('normal', 'gcWinKbint') if tier == 'quick' else gc_endings):
             jobs.append(make_job('d%d' % k, ('A',), e, 'none', rng, pre_debug=pd, v4=True))
+            k += 1
+    # nested runs: a test of the outer run calls run_internal itself; outer
+    # options x inner options x how the outer test phase ends
+    nest_endings = ['normal', 'failing', 'kbint', 'hookDown', 'stop', 'normal']
+    outer = [(), ('buffer',), ('gc', 'G'), ('coverage',), ('profile',), ('warnings', 'buffer'),
+             ('gc', 'G', 'coverage', 'profile', 'buffer', 'warnings'), ('A', 'G')]
+    k = 0
+    for s in outer if tier == 'quick' else outer + subsets[::5]:
+        for inner in ((), tuple(INNER_POOL), tuple(o for o in INNER_POOL if rng.random() < 0.5)):
+            jobs.append(make_job('n%d' % k, s, nest_endings[k % len(nest_endings)],
+                                 'both' if k % 4 == 3 else 'none', rng, nested=inner))
             k += 1
     chk.sample({'args': jobs[5]['args'], 'meta': jobs[5]['meta'], 'pre': jobs[5]['pre'],
                 'world': jobs[5]['world']})
